@@ -19,6 +19,9 @@
 //!       The Lean driver computes the same line from the model (definition + prover pipeline + verifier
 //!       expression) for explicit data (base fields and extensions, no Lagrange kernel column) and
 //!       answers `-` otherwise.
+//!   deft <field> <ext> <blowup> <data> <AirDesc>
+//!       the same with the domain built by the second public constructor `StarkDomain::from_twiddles`
+//!       (needs lde blowup = ce blowup); same output, same model line.
 //!   ood <field> <q.b.g.x.f.r> <seed> <AirDesc>
 //!       a real proof (`GenericProver` with a recording coin), the real `verify`; z and all coefficients
 //!       are what the verifier's coin produced; the proof's OOD frame and OOD constraint evaluations
@@ -440,6 +443,7 @@ fn derive<B: GField, E: FieldElement<BaseField = B>>(desc: &AirDesc, field: Fiel
     d.coeffs = (0..nt + nb + nl)
         .map(|i| match rng.below(12) {
             0 => f.one(),
+            3 => f.base(f.p - 1),
             1 => f.zero(),
             2 => f.base(rng.below(5) as u128),
             _ => rand_oe(f, &mut rng),
@@ -850,7 +854,7 @@ fn verifier_expr<B: GField, E: FieldElement<BaseField = B>>(
     (result, Frame { cur: o(main_frame.current()), nxt: o(main_frame.next()), acur, anxt, lag })
 }
 
-fn run_def<B: GField, E: FieldElement<BaseField = B>>(desc: &Arc<AirDesc>, field: FieldId, f: &OF, lde_blowup: usize, data_tok: &str) -> Outcome {
+fn run_def<B: GField, E: FieldElement<BaseField = B>>(desc: &Arc<AirDesc>, field: FieldId, f: &OF, lde_blowup: usize, data_tok: &str, twiddle_domain: bool) -> Outcome {
     let n = desc.trace_len;
     let data = if let Some(rest) = data_tok.strip_prefix('s') {
         let mut it = rest.split('.');
@@ -871,7 +875,7 @@ fn run_def<B: GField, E: FieldElement<BaseField = B>>(desc: &Arc<AirDesc>, field
         Err(e) => return Outcome::ok("bad-op"),
     };
     let opts = OptSpec::new(1, lde_blowup, 0, f.k as u8, 2, 0);
-    if !opts.accepted() || lde_blowup < desc.min_blowup() {
+    if !opts.accepted() || lde_blowup < desc.min_blowup() || (twiddle_domain && lde_blowup != desc.min_blowup()) {
         return Outcome::ok("bad-op");
     }
     // ---- the instance must be a valid execution (the property quantifies over those)
@@ -887,7 +891,12 @@ fn run_def<B: GField, E: FieldElement<BaseField = B>>(desc: &Arc<AirDesc>, field
     let mut o = Outcome::default();
     // ---- prover side, real code
     let air = GenericAir::<B>::new(trace_info(desc), GenPub { desc: desc.clone(), values: pubs.clone() }, opts.to_options());
-    let domain = StarkDomain::new(&air);
+    // second public constructor of the domain (only meaningful when ce blowup = lde blowup)
+    let domain = if twiddle_domain {
+        StarkDomain::from_twiddles(winter_math::fft::get_twiddles::<B>(n), lde_blowup, B::GENERATOR)
+    } else {
+        StarkDomain::new(&air)
+    };
     let main = ColMatrix::new(cols.clone());
     let (mut lde, mut polys) = DefaultTraceLde::<E, Blake3_256<B>>::new(air.trace_info(), &main, &domain);
     let aux_rand = if desc.aux.is_some() {
@@ -1092,7 +1101,7 @@ macro_rules! by_field_ext {
     };
 }
 
-fn exec_def(t: &[&str]) -> Outcome {
+fn exec_def(t: &[&str], twiddle_domain: bool) -> Outcome {
     if t.len() != 5 {
         return Outcome::ok("bad-op");
     }
@@ -1111,7 +1120,7 @@ fn exec_def(t: &[&str]) -> Outcome {
         Some(f) => f,
         None => return Outcome::ok("bad-op"),
     };
-    by_field_ext!(field, ext, run_def, (&desc, field, &f, blowup, t[3]))
+    by_field_ext!(field, ext, run_def, (&desc, field, &f, blowup, t[3], twiddle_domain))
 }
 
 fn exec_ood(t: &[&str]) -> Outcome {
@@ -1400,6 +1409,224 @@ fn structured_ops(rng: &mut Rng, tier: Tier, emit: &mut dyn FnMut(String)) {
     }
 }
 
+/// `nm` main / `na` auxiliary transition constraints, `am` main / `aa` auxiliary assertions (aa <= 2·na),
+/// optional Lagrange kernel column: main column j follows x' = x^2 + k_j, auxiliary column j is the
+/// running product a' = a·(c_0 + r_0) started at 1
+fn counts_desc(n: usize, nm: usize, na: usize, am: usize, aa: usize, lagrange: bool) -> AirDesc {
+    let w = nm + 1;
+    let mut cols = vec![];
+    let mut constraints = vec![];
+    for j in 0..nm {
+        let rule = Expr::add(Expr::pow(Expr::Cur(j), 2), Expr::Const(3 + j as u128));
+        let c = Expr::sub(Expr::Nxt(j), rule.clone());
+        constraints.push(Constraint { degree: c.degree(&[], n), expr: c });
+        cols.push(ColGen::Step { init: None, expr: rule });
+    }
+    cols.push(ColGen::Rand);
+    // main assertions: (0,0) first (public input 0), then cells of the free column
+    let mut assertions = vec![AssertDesc::single(0, 0)];
+    for i in 1..am {
+        assertions.push(AssertDesc::single(w - 1, i));
+    }
+    let mut d = AirDesc { width: w, trace_len: n, exemptions: 1, tail_junk: false, periodic: vec![], cols, constraints, assertions, aux: None };
+    if na > 0 {
+        let mut acols = vec![];
+        let mut acons = vec![];
+        let mut aasserts = vec![];
+        for j in 0..na {
+            let step = Expr::mul(Expr::AuxCur(j), Expr::add(Expr::Cur(0), Expr::Rand(0)));
+            let c = Expr::sub(Expr::AuxNxt(j), step.clone());
+            acons.push(Constraint { degree: c.degree(&[], n), expr: c });
+            acols.push(AuxGen::Acc { init: Expr::Const(1), step });
+        }
+        for i in 0..aa.min(2 * na) {
+            if i < na {
+                aasserts.push(AuxAssertDesc { a: AssertDesc::single(i, 0), value: Expr::Const(1) });
+            } else {
+                // second cell of the running product: 1·(c_0[0] + r_0), c_0[0] being public input 0
+                aasserts.push(AuxAssertDesc { a: AssertDesc::single(i - na, 1), value: Expr::add(Expr::Pub(0), Expr::Rand(0)) });
+            }
+        }
+        d.aux = Some(AuxDesc { width: na + lagrange as usize, num_rands: 1, lagrange, cols: acols, constraints: acons, assertions: aasserts });
+    }
+    d
+}
+
+/// several boundary groups of the auxiliary segment that merge into main groups (same divisor), one
+/// that has the divisor of a main group under another key, and one that stays on its own
+fn merge_desc(n: usize, stride: usize) -> AirDesc {
+    // columns: 0 rule-driven, 1 constant on the cycle (periodic assertion), 2 free
+    let mut d = seq_desc(
+        n,
+        2,
+        vec![],
+        vec![
+            AssertDesc::single(0, 0),
+            AssertDesc::single(2, 0),
+            AssertDesc::single(2, 2),
+            AssertDesc::periodic(1, 3, n),
+            AssertDesc::sequence(2, 1, stride),
+        ],
+        3,
+        1,
+    );
+    d.cols[1] = ColGen::Cyc(2);
+    // public inputs: 0: c0[0], 1: c2[0], 2: c2[2], 3: c1[3], 4..: c2[1 + stride·k]
+    let img = |pubx: Expr| Expr::add(Expr::mul(Expr::Rand(0), pubx), Expr::Rand(1));
+    let e = Expr::add(Expr::mul(Expr::Rand(0), Expr::Cur(2)), Expr::Rand(1));
+    let c0 = Expr::sub(Expr::AuxCur(0), e.clone());
+    let step = Expr::mul(Expr::AuxCur(1), Expr::add(Expr::Cur(0), Expr::Rand(0)));
+    let c1 = Expr::sub(Expr::AuxNxt(1), step.clone());
+    d.aux = Some(AuxDesc {
+        width: 2,
+        num_rands: 2,
+        lagrange: false,
+        cols: vec![AuxGen::Fn(e), AuxGen::Acc { init: Expr::Const(1), step }],
+        constraints: vec![Constraint { degree: c0.degree(&[], n), expr: c0 }, Constraint { degree: c1.degree(&[], n), expr: c1 }],
+        assertions: vec![
+            // merge into the main group of step 0 (two main constraints already there)
+            AuxAssertDesc { a: AssertDesc::single(0, 0), value: img(Expr::Pub(1)) },
+            AuxAssertDesc { a: AssertDesc::single(1, 0), value: Expr::Const(1) },
+            // merges into the main group of step 2
+            AuxAssertDesc { a: AssertDesc::single(0, 2), value: img(Expr::Pub(2)) },
+            // same (stride, first) as the main sequence: merges into its group
+            AuxAssertDesc { a: AssertDesc::sequence(0, 1, stride), value: img(Expr::PubSeq(4)) },
+            // a group of its own (no main assertion at step 1 of that kind... the sequence starts at 1 but has another divisor)
+            AuxAssertDesc { a: AssertDesc::single(1, 1), value: Expr::add(Expr::Pub(0), Expr::Rand(0)) },
+        ],
+    });
+    d
+}
+
+/// HARDENING.md: every pair of quantities the code distinguishes differs in both directions, every
+/// comparison constant is hit on both sides, every public entry point is used
+fn hardening_ops(rng: &mut Rng, tier: Tier, emit: &mut dyn FnMut(String)) {
+    let thorough = tier == Tier::Thorough;
+    let ood_line = |field: FieldId, ext: u8, b: usize, seed: u64, d: &AirDesc| -> String {
+        format!("ood {} {} {} {}", field.name(), OptSpec::new(4, b, 0, ext, 4, 7).to_text(), seed, d.to_line())
+    };
+    // ---- #aux vs #main transition constraints and #aux vs #main assertions: <, =, > in every
+    // combination; Lagrange kernel column next to 1, 2 and 3 other auxiliary columns; lde blowup equal
+    // to and above the ce blowup (also inside the Lagrange kernel evaluator)
+    let counts = [
+        (1usize, 3usize, 1usize, 3usize),
+        (1, 3, 4, 1),
+        (2, 2, 2, 2),
+        (3, 1, 1, 2),
+        (3, 1, 3, 1),
+        (2, 3, 2, 5),
+        (4, 2, 1, 4),
+        (1, 1, 1, 1),
+        (2, 1, 3, 2),
+    ];
+    for (ci, (nm, na, am, aa)) in counts.into_iter().enumerate() {
+        for (fi, field) in FieldId::ALL.into_iter().enumerate() {
+            for lag in [false, true] {
+                let n = if (ci + fi) % 2 == 0 { 8 } else { 16 };
+                let d = counts_desc(n, nm, na, am, aa, lag);
+                let ceb = d.min_blowup();
+                let ext = *rng.pick(&exts(field));
+                // lde = ce and lde > ce
+                emit(def_line(field, ext, ceb, &format!("s{}.3", rng.below(1000)), &d));
+                emit(def_line(field, *rng.pick(&exts(field)), ceb * (2 << (ci % 3)), &format!("s{}.3", rng.below(1000)), &d));
+                emit(ood_line(field, ext, if lag { ceb * 4 } else { ceb.max(4) }, rng.below(1000), &d));
+                if lag {
+                    emit(ood_line(field, *rng.pick(&exts(field)), ceb.max(2), rng.below(1000), &d));
+                } else if (ci + fi) % 3 == 0 {
+                    if let Some(l) = explicit_line(field, if fi == ci % 3 { ext } else { 1 }, ceb * 2, rng.below(1000), 2, &d) {
+                        emit(l);
+                    }
+                }
+            }
+        }
+    }
+    // ---- several auxiliary boundary groups merging into main groups
+    for (n, stride) in [(8usize, 2usize), (16, 4), (128, 2)] {
+        let d = merge_desc(n, stride);
+        for field in FieldId::ALL {
+            let ext = *rng.pick(&exts(field));
+            emit(def_line(field, ext, 2, &format!("s{}.3", rng.below(1000)), &d));
+            emit(def_line(field, *rng.pick(&exts(field)), 8, &format!("s{}.3", rng.below(1000)), &d));
+            emit(ood_line(field, ext, 4, rng.below(1000), &d));
+            if n <= 16 {
+                if let Some(l) = explicit_line(field, 1, 2, rng.below(1000), 2, &d) {
+                    emit(l);
+                }
+            }
+        }
+    }
+    // ---- the second public constructor of the prover's domain: StarkDomain::from_twiddles
+    for (fi, field) in FieldId::ALL.into_iter().enumerate() {
+        let descs = [
+            seq_desc(8, 2, vec![per(rng, 2), structured_cycle(rng, field, 8, 4)], vec![AssertDesc::single(0, 0), AssertDesc::sequence(1, 1, 2)], 2, 1),
+            seq_desc(16, 5, vec![per(rng, 4)], vec![AssertDesc::sequence(0, 0, 4), AssertDesc::single(1, 3)], 2, 2),
+            seq_desc(128, 3, vec![], vec![AssertDesc::sequence(0, 1, 2), AssertDesc::sequence(1, 0, 4)], 2, 1),
+            with_aux(seq_desc(64, 2, vec![per(rng, 16)], vec![AssertDesc::single(0, 0)], 2, 1), Some((1, 2)), fi == 1),
+            counts_desc(16, 2, 3, 2, 4, true),
+        ];
+        for (di, d) in descs.iter().enumerate() {
+            let ceb = d.min_blowup();
+            emit(format!("deft {} {} {} s{}.3 {}", field.name(), *rng.pick(&exts(field)), ceb, rng.below(1000), d.to_line()));
+            if d.trace_len <= 16 && !d.has_lagrange() {
+                if let Some(l) = explicit_line(field, if di == 0 { 1 } else { *rng.pick(&exts(field)) }, ceb, rng.below(1000), 2, d) {
+                    emit(l.replacen("def ", "deft ", 1));
+                }
+            }
+        }
+    }
+    // ---- the representation switch from both sides next to each other, with the twiddle caches shared:
+    // sequences of 32, 64, 64 and 128 values in one description (numbers of values are powers of two, so
+    // 32 | 64 are the neighbours of the 63-coefficient threshold), first steps 0, 1 and stride - 1
+    for (fi, field) in FieldId::ALL.into_iter().enumerate() {
+        let n = 256;
+        let mut d = seq_desc(
+            n,
+            2,
+            vec![],
+            vec![
+                AssertDesc::sequence(1, 0, 8),
+                AssertDesc::sequence(2, 1, 4),
+                AssertDesc::sequence(3, 3, 4),
+                AssertDesc::sequence(4, 1, 2),
+                AssertDesc::single(0, 0),
+            ],
+            5,
+            1,
+        );
+        d.cols[3] = ColGen::LowDeg(2);
+        emit(def_line(field, *rng.pick(&exts(field)), 2, &format!("s{}.3", rng.below(1000)), &d));
+        emit(def_line(field, *rng.pick(&exts(field)), 16, &format!("s{}.3", rng.below(1000)), &d));
+        if fi == 0 {
+            emit(ood_line(field, 1, 4, rng.below(1000), &d));
+        }
+    }
+    // ---- values at the modulus boundary and zero at interior positions: trace columns p-1 / 0,
+    // periodic values p-1 and 0 (coefficients p-1, 0, 1 come from `derive`)
+    for field in FieldId::ALL {
+        let p = field.modulus();
+        let mut d = seq_desc(16, 2, vec![vec![p - 1, 0, 0, p - 1], vec![0, p - 1]], vec![AssertDesc::single(0, 0), AssertDesc::sequence(1, 1, 2), AssertDesc::periodic(2, 0, 2)], 3, 1);
+        d.cols[0] = ColGen::Step { init: Some(p - 1), expr: match &d.cols[0] { ColGen::Step { expr, .. } => expr.clone(), _ => unreachable!() } };
+        d.cols[1] = ColGen::Const(Some(p - 1));
+        d.cols[2] = ColGen::Const(Some(0));
+        emit(def_line(field, *rng.pick(&exts(field)), 4, &format!("s{}.3", rng.below(1000)), &d));
+        emit(ood_line(field, *rng.pick(&exts(field)), 4, rng.below(1000), &d));
+        if let Some(l) = explicit_line(field, 1, 2, rng.below(1000), 2, &d) {
+            emit(l);
+        }
+    }
+    // ---- sizes beyond 2^8 (and, thorough, an LDE domain of 2^16 points)
+    let big = seq_desc(512, 2, vec![per(rng, 256), structured_cycle(rng, FieldId::F64, 512, 5)], vec![AssertDesc::sequence(0, 1, 2), AssertDesc::single(1, 300)], 2, 3);
+    emit(def_line(FieldId::F64, 2, 4, &format!("s{}.2", rng.below(1000)), &big));
+    emit(ood_line(FieldId::F64, 1, 8, rng.below(1000), &big));
+    let big2 = seq_desc(1024, 3, vec![], vec![AssertDesc::sequence(0, 511, 512), AssertDesc::sequence(1, 0, 2)], 2, 1);
+    emit(def_line(FieldId::F128, 1, 2, &format!("s{}.2", rng.below(1000)), &big2));
+    if thorough {
+        let big3 = seq_desc(4096, 2, vec![per(rng, 4096)], vec![AssertDesc::sequence(0, 1, 2), AssertDesc::single(1, 4095)], 2, 1);
+        emit(def_line(FieldId::F64, 1, 16, &format!("s{}.2", rng.below(1000)), &big3));
+        emit(def_line(FieldId::F62, 2, 2, &format!("s{}.2", rng.below(1000)), &big3));
+    }
+}
+
 fn def_line(field: FieldId, ext: u8, blowup: usize, data: &str, d: &AirDesc) -> String {
     format!("def {} {} {} {} {}", field.name(), ext, blowup, data, d.to_line())
 }
@@ -1641,6 +1868,7 @@ impl Prop for P {
         let n = default_n(tier, 2600, 26000, n);
         boundary_ops(rng, tier, emit);
         structured_ops(rng, tier, emit);
+        hardening_ops(rng, tier, emit);
         let mut big = big_explicit_ops(rng, tier);
         let every = (n / (big.len() + 1)).max(1);
         for i in 0..n {
@@ -1673,6 +1901,12 @@ impl Prop for P {
                     }
                 }
             }
+            // the order in which an AIR lists its assertions is not the order of their coefficients
+            if d.aux.is_none() && d.assertions.len() > 1 && i % 3 == 0 {
+                let k = rng.below(d.assertions.len() as u64) as usize;
+                d.assertions.rotate_left(k);
+                d.assertions.reverse();
+            }
             let ext = if small && i % 2 == 0 { 1 } else { *rng.pick(&exts(field)) };
             let lb = *rng.pick(&blowups(&d, if small { 256 } else { 2048 }));
             let seed = rng.below(1_000_000);
@@ -1696,7 +1930,8 @@ impl Prop for P {
     fn exec(&self, line: &str) -> Outcome {
         let t: Vec<&str> = line.split(' ').filter(|x| !x.is_empty()).collect();
         match t.first().copied() {
-            Some("def") => exec_def(&t[1..]),
+            Some("def") => exec_def(&t[1..], false),
+            Some("deft") => exec_def(&t[1..], true),
             Some("ood") => exec_ood(&t[1..]),
             _ => Outcome::ok("bad-op"),
         }
@@ -1718,7 +1953,7 @@ impl Prop for P {
             out.split(|c| c == ' ' || c == ':').next().unwrap_or("")
         };
         match t.first().copied() {
-            Some("def") if t.len() >= 5 => {
+            Some("def") | Some("deft") if t.len() >= 5 => {
                 let form = if t[4].starts_with('x') { "explicit" } else { "seed" };
                 let aux = if t.last().map(|d| d.contains(";x=")).unwrap_or(false) { "aux" } else { "main" };
                 format!("def.{}.x{}.{}.{}:{}", t[1], t[2], form, aux, kind)
